@@ -85,6 +85,10 @@ SHAPES = {
     "update_merge_in_call": case(kw=[("title", S("old"))], ops=[upd(args=[[("title", X)], [("title", HV("hh"))]])]),
     "setitem": case(kw=[("id", S("i"))], ops=[{"op": "setitem", "name": "data_q", "v": X}]),
     "setitem_replace_html": case(kw=[("k", HV("h"))], ops=[{"op": "setitem", "name": "k", "v": X}]),
+    # the value being replaced was TRUSTED markup made of the very same characters: what is stored afterwards is the plain text
+    "setitem_plain_over_equal_html": case(kw=[("title", HV("\0X\0")), ("id", S("i"))], ops=[{"op": "setitem", "name": "title", "v": X}]),
+    "update_plain_over_equal_html": case(kw=[("data_v", HV("\0X\0"))], ops=[upd(kw=[("data_v", X)])], via="Tag", name="a-b"),
+    "setitem_twice_same_plain": case(kw=[("title", X)], ops=[{"op": "setitem", "name": "title", "v": X}, {"op": "setitem", "name": "title", "v": HV("h")}, {"op": "setitem", "name": "title", "v": X}]),
     "add_class_append": case(kw=[("class_", S("c0"))], ops=[{"op": "add_class", "v": X, "prepend": False}]),
     "add_class_prepend": case(kw=[("class_", S("c0"))], ops=[{"op": "add_class", "v": X, "prepend": True}]),
     "add_class_fresh": case(ops=[{"op": "add_class", "v": X, "prepend": False}]),
@@ -107,8 +111,8 @@ SHAPES = {
 
 def subst(obj, s):
     if isinstance(obj, dict):
-        if obj.get("t") == "str" and "\0X\0" in obj["s"]:
-            return {"t": "str", "s": obj["s"].replace("\0X\0", s)}
+        if obj.get("t") in ("str", "html") and "\0X\0" in obj["s"]:
+            return dict(obj, s=obj["s"].replace("\0X\0", s))
         return {k: subst(v, s) for k, v in obj.items()}
     if isinstance(obj, list):
         return [subst(v, s) for v in obj]
